@@ -507,9 +507,14 @@ def r4_9(ctx):
               "not `aaa`" % (pats[0], miss, (" and accepts %s" % extra) if extra else ""))
     f = prog.fn("resolve_escape_sequences_to_bytes")
     bodies = [f] + prog.closures_of(f)
-    radix = [mname(t) for b_ in bodies for _, t in b_.calls() if (mname(t) or "").endswith("from_str_radix")]
-    valid = [mname(t) for b_ in bodies for _, t in b_.calls() if (mname(t) or "").split("::")[-1] in ("is_ascii_hexdigit", "is_digit", "to_digit", "is_ascii_digit", "is_ascii_octdigit")]
-    ctx.check(bool(radix) and len(valid) >= len(radix), "digits-validated", f.where(), "each of the %d from_str_radix conversions is preceded by a digit-class test (%s)" % (len(radix), sorted(set(valid))),
+    # closures of helpers that were inlined at several sites keep their own definition path
+    inl = set(getattr(prog, "inlined", []) or [])
+    bodies += [b_ for b_ in prog.bodies if b_.promoted is None and b_.kind == "Closure" and any(b_.path.startswith(h.split("::", 1)[-1]) or b_.path.startswith(h) for h in inl)
+               and "escaped_filter" in b_.file and b_ not in bodies]
+    # counted by source position: a helper inlined at two call sites is one conversion and one test
+    radix = sorted({b_.loc(bb) for b_ in bodies for bb, t in b_.calls() if (mname(t) or "").endswith("from_str_radix")})
+    valid = sorted({b_.loc(bb) for b_ in bodies for bb, t in b_.calls() if (mname(t) or "").split("::")[-1] in ("is_ascii_hexdigit", "is_digit", "to_digit", "is_ascii_digit", "is_ascii_octdigit")})
+    ctx.check(bool(radix) and len(valid) >= len(radix), "digits-validated", f.where(), "each of the %d from_str_radix conversions is preceded by a digit-class test (%d)" % (len(radix), len(valid)),
               "%d from_str_radix conversion(s), %d digit-class test(s): from_str_radix accepts a sign, `\\x+1` resolves to the byte 0x01 instead of being rejected" % (len(radix), len(valid)))
 
 
